@@ -758,8 +758,19 @@ def iter_ensures_single(c):
         single_facts(c, v, v.clock)
 
 
+def _is_single(c):
+    m = c.args.get('multi') if hasattr(c, 'args') else None
+    if isinstance(m, SBool):
+        t = z3.simplify(m.t)
+        if z3.is_false(t):
+            return True
+        if z3.is_true(t):
+            return False
+    return c.eng.variant == 'single'
+
+
 def _by_variant(single, multi):
-    return lambda c, *a: (single if c.eng.variant == 'single' else multi)(c, *a)
+    return lambda c, *a: (single if _is_single(c) else multi)(c, *a)
 
 
 iterkeys.setup = lambda eng, st, variant=None: (setup_iter_single if variant == 'single' else setup_iter)(eng, st, variant)
@@ -768,6 +779,7 @@ iterkeys.hints = _by_variant(iter_hint_single, iter_hint)
 iterkeys.loops = {0: Loop(iter_inv_for(False), heap=[], ghost=['outcell']),
                   1: Loop(iter_inv_single, heap=[('OYieldedSet', 'dom'), ('OYieldedSet', 'size')], ghost=['outcell', 'outidx'])}
 iterkeys.variants = ['multi', 'single']
+iterkeys.yields = 1
 
 
 def m4_all_pairs(c):
@@ -791,7 +803,7 @@ def m4_induction_lemmas():
     return [('M4+ induction base (distance 1)', base), ('M4+ induction step (distance d -> d+1)', step)]
 
 
-iterkeys.facts = lambda c: m4_all_pairs(c) if c.eng.variant == 'single' else []
+iterkeys.facts = lambda c: m4_all_pairs(c) if _is_single(c) else []
 _ring = ['fact:M4+ stamps increase along a cell list (all pairs)', 'll.O0', 'll.O1', 'll.O2', 'll.O3', 'll.O4', 'll.O5', 'll.O6', 'll.M1', 'll.M2', 'll.M3', 'll.M4',
          'nothing is modified', 'root local; curr is a node of the ring', 'the local set is the one allocated by this call']
 iterkeys.reveal = {
@@ -801,9 +813,50 @@ iterkeys.reveal = {
 }
 iterkeys.local_types = dict(yielded=REF(YSet))
 iterkeys.modifies = lambda c: [('OYieldedSet', 'dom'), ('OYieldedSet', 'size')]
+
+
+# ---- iteritems(multi=False): (key, most recent value) for each key, in the order of iterkeys() -----------------------------------
+# iterkeys() is called by contract: its yielded keys and ghost cells are readable as $gen:iterkeys:*
+def G(c, name):
+    return c.g('$gen:iterkeys:' + name)
+
+
+def items_single_facts(c, v, upto):
+    n, o0, o1 = c.g('out_n'), c.g('out_0'), c.g('out_1')
+    m = z3.Int('m')
+    kk = z3.Select(G(c, 'out_0'), m)
+    return [('item m is (m-th key of iterkeys(), the most recent value of that key)', z3.And(n == upto, z3.ForAll([m], z3.Implies(
+        z3.And(0 <= m, m < n), z3.And(z3.Select(o0, m) == kk, z3.Select(v.mdom, kk),
+                                      z3.Select(o1, m) == v.value(kk, v.vlen(kk) - 1))))))]
+
+
+def iter_inv_items_single(c):
+    o, v = V(c, c.old), V(c)
+    return [('nothing is modified', z3.And(same(c, LL_KEYS + D_KEYS), v.live == o.live, v.t == o.t, v.pos == o.pos)),
+            ] + items_single_facts(c, v, c.x['i'])
+
+
+def iter_ensures_items_single(c):
+    o, v = V(c, c.old), V(c)
+    gk = dict(out_n=G(c, 'out_n'), out_0=G(c, 'out_0'), outcell=G(c, 'outcell'), outidx=G(c, 'outidx'))
+    # the keys are exactly what iterkeys(multi=False) yields: restated over its ghost arrays
+    st2 = c.st.copy()
+    st2.ghost.update(gk)
+    from pyvc.contract import Ctx
+    ck = Ctx(c.eng, st2, c.old, c.args)
+    return [('nothing is modified', z3.And(same(c, LL_KEYS + D_KEYS), v.live == o.live, v.t == o.t, v.pos == o.pos))] + \
+        [('keys: ' + l, f) for l, f in single_facts(ck, v, v.clock)] + items_single_facts(c, v, G(c, 'out_n'))
+
+
+iteritems.setup = lambda eng, st, variant=None: (setup_iter_single if variant == 'single' else setup_iter)(eng, st, variant)
+iteritems.ensures = _by_variant(iter_ensures_items_single, iter_ensures_for(True))
+iteritems.loops = {0: Loop(iter_inv_for(True), heap=[], ghost=['outcell']), 1: Loop(iter_inv_items_single, heap=[], ghost=[])}
+iteritems.variants = ['multi', 'single']
+iteritems.modifies = lambda c: [('OYieldedSet', 'dom'), ('OYieldedSet', 'size')]
+iteritems.hints = lambda c, e, d: (iter_hint(c, e, d) if not _is_single(c) else [])
 for _c in [iteritems, iterkeys]:
     CONTRACTS[_c.qualname] = _c
-PUBLIC += [('OrderedMultiDict.iteritems', ['multi']), ('OrderedMultiDict.iterkeys', ['multi', 'single'])]
+PUBLIC += [('OrderedMultiDict.iteritems', ['multi', 'single']), ('OrderedMultiDict.iterkeys', ['multi', 'single'])]
 
 
 # =====================================================================================================================
